@@ -71,7 +71,10 @@ def execute(c):
         try:
             if a == "node":
                 t = trees[act["t"] - 1]
-                nd = t[act["key"]] if act["key"] % 2 == 0 else t[np.int64(act["key"])]
+                if lib.vid(c) % 3 == 2:
+                    nd = t.node(act["key"])                   # the handle keeps the key as given (negative keys included)
+                else:
+                    nd = t[act["key"]] if act["key"] % 2 == 0 else t[np.int64(act["key"])]
                 views.append(("node", nd, None))
             elif a == "index_error":
                 trees[act["t"] - 1][act["key"]]
